@@ -102,7 +102,7 @@ PROPS = {
                 pending=['cache_transparent lifted to whole call sequences incl. eval (simulation)']),
     'C18': dict(obligations=lambda: P('SqProps.C18') + TIE_LEX + TIE_TOK,
                 slices=['names', 'session_cache', 'name_lookup'], monitors=['c18'],
-                pending=['tree_names_from_tokens (needs parser soundness)']),
+                pending=['machine-level closure: every lookupName call of a whole run asks for a name Mentions-ed by the tree or by an ast_names tree (one-step lemmas proved)']),
     'C19': dict(obligations=lambda: P('SqProps.C19'),
                 slices=['rand'], monitors=['c19'],
                 pending=['rand0_range ([0,1) for every generator state)', 'shuffle result is a permutation (length proved)']),
